@@ -307,17 +307,39 @@ class Ctx:
                     self.samples.append(desc)
 
     def mismatch(self, op, desc, impl, model):
+        # Which exception CLASS rejects an input that both sides reject is not part of any property (a tidy-up that turns an
+        # accidental IndexError into a ValueError must not alarm): outcomes are compared with the class erased.
+        if canon_err(impl) == canon_err(model):
+            self.dist['exception-class-differs (not a disagreement)'] += 1
+            return
         self.mismatches.append({'op': op, 'case': desc, 'implementation': impl, 'model': model})
 
     def compare(self, op, desc, impl, model, nontrivial=True, tags=()):
         self.case(desc, nontrivial, tags)
         if impl != model:
+            if canon_err(impl) == canon_err(model):
+                self.dist['exception-class-differs (not a disagreement)'] += 1
+                return True
             self.mismatch(op, desc, impl, model)
             return False
         return True
 
     def note(self, s):
         self.notes.append(s)
+
+
+_ERR_RX = re.compile(r"\berr[ :]+[A-Za-z_][\w.]*")
+
+
+def canon_err(x):
+    """erase the exception class from a canonical outcome: 'err IndexError' -> 'err' (recursively in containers)"""
+    if isinstance(x, str):
+        return _ERR_RX.sub('err', x)
+    if isinstance(x, (list, tuple)):
+        return [canon_err(v) for v in x]
+    if isinstance(x, dict):
+        return {k: canon_err(v) for k, v in x.items()}
+    return x
 
 
 def load_known():
